@@ -34,6 +34,8 @@ C17 = {
     },
     "replay_args": ["replay"],
     "random_args": {"quick": [["subsets", "6"], ["random", "500", "12"]], "thorough": [["subsets", "40"], ["random", "20000", "14"]]},
+    "probe_args": ["probe"],
+    "probe_replay_input": {"kinds": []},
     "trace": ("Trace_kinds", "Trace_kinds.cfg"),
     "shards": {"quick": 8, "thorough": 14},
     "nontrivial": lambda ev: (repr(ev["inp"]["kinds"]) if len(set(ev["inp"]["kinds"])) >= 2 else None),
@@ -41,7 +43,9 @@ C17 = {
             "(MC_kinds: transcription of sort+dedup+description_rec equals the set-based phrase, and is invariant under adjacent swaps) "
             "and replayed through the real value_kinds_description_json; plus all 256 subsets in seeded random permutations with "
             "repetitions and random lists up to length 12/14; non-trivial = distinct lists naming >= 2 different kinds",
-    "assumptions": ASSUME_COMMON + ["the query-parameter description is specified as the constant 'a string' (documented in the source)"],
+    "assumptions": ASSUME_COMMON + ["the individual kind names, the fallback text and which fixed order is used are read from the implementation once "
+                                    "(probe line) - the property fixes none of them; 'a number' / 'an integer' and the join grammar are fixed by it",
+                                    "the phrase is split into items by the harness; the specification re-joins the items and compares with the phrase"],
 }
 
 C18 = {
